@@ -17,3 +17,5 @@ const VLabel bg_zero_VLabel;
 const NoLabel bg_zero_NoLabel;
 const EdgeMultiplicity bg_zero_uint;
 const bg_real bg_zero_real;
+struct bg_adj *bg_cur_adj;
+bg_ghost_frontier_t bg_ghost_frontier;
